@@ -24,6 +24,7 @@ import Golib.Conf.FSDurLemmas
 import Golib.Conf.FSFault
 import Golib.Conf.SysHist
 import Golib.Conf.KeyBackslash
+import Golib.Conf.KeyFull
 import Golib.Conf.LiftLines
 
 namespace C18
@@ -247,6 +248,13 @@ example :
     (Sys.init.run true [.addObs ['a'] 1, .addObs ['b'] 2, .edit f1, .reloadPanic [2], .edit f2, .reload]).obs.counts
       = [(1, 1), (2, 2)] := by decide
 
+/-- … and the configuration's own count of notification rounds is exactly the number of reloads
+    of the history that notified (loaded a new version; with fix-D46 also: reset to the defaults) -/
+theorem notification_rounds (nr : Bool) (ops : List SysOp) :
+    (Sys.init.run nr ops).cfg.notified = roundsOf (project nr Sys.init ops) := by
+  have := notified_is_rounds nr Sys.init ops
+  simpa [Sys.init, Cfg.init] using this
+
 theorem reload_leaves_alone (c : Cfg) (file : Option FileSt)
     (h1 : (reload verFull c file).2 ≠ .loaded) (h2 : (reload verFull c file).2 ≠ .reset) :
     (reload verFull c file).1.m = c.m ∧ (reload verFull c file).1.notified = c.notified :=
@@ -456,6 +464,10 @@ theorem writeback_closed (infos : List LineInfo) (M : KV) (hwf : WFprops infos) 
   outInfos_wf _ infos hwf
     (propsWF_setAll _ M (propsWF_foldl_put _ [] (by intro p hp; cases hp) (propsWF_pairsOf infos hwf)) hM)
 
+example : (setValuesModel true ['p', '.'] [] [['x']] ['#', 'c', '\n', 'p', '.', 'a', '=', '1', '\n']
+      [(['a'], ['2']), (['x'], ['9']), (['b'], ['3'])]).map (·.text)
+    = some ['#', 'c', '\n', 'p', '.', 'a', '=', '2', '\n', 'p', '.', 'b', '=', '3', '\n'] := by decide
+
 /-- the same through FileConfig.SetValues (exclusions, prefix, suffix) -/
 theorem setvalues_merge_partial (pre suf : Str) (excl : List Str) (infos : List LineInfo) (kvs : KV)
     (hwf : WFprops infos)
@@ -525,6 +537,26 @@ example : lexPairs (renderKV ['a', '\\'] ['1'] ++ ['\n']) = some [(['a', '=', '1
 /-- the two remaining shapes, by example: `a\\b` comes back as `a\b`, `a\u0041` as `aA` -/
 example : lexPairs (renderKV ['a', '\\', '\\', 'b'] ['1'] ++ ['\n']) = some [(['a', '\\', 'b'], ['1'])] := by decide
 example : lexPairs (renderKV ['a', '\\', 'u', '0', '0', '4', '1'] ['1'] ++ ['\n']) = some [(['a', 'A'], ['1'])] := by decide
+
+/-- **Which keys survive a write-back — complete**: a key that starts with a word character
+    (others are never written) is read back from its rendered line iff every character is plain
+    (no blank, tab, form feed, line end, ':', '=', backslash).  A key containing a backslash is
+    never read back under its own name, whatever follows the backslash
+    (`Conf.key_with_bs_never_first`: the lexed key is shorter than the consumed text, or has one
+    '=' more than the written key). -/
+theorem key_preserved_iff_full (k v : Str) (hw : isWordStart k = true) (hv : WFval v) :
+    lexPairs (renderKV k v ++ ['\n']) = some [(k, v)] ↔ ∀ c ∈ k, plainKeyChar c = true := by
+  by_cases hbs : '\\' ∈ k
+  · constructor
+    · intro h
+      have e : renderKV k v ++ ['\n'] = k ++ '=' :: (escValue v ++ ['\n']) := by simp [renderKV]
+      rw [e] at h
+      exact absurd h (key_with_bs_never_first k _ v [] hw hbs)
+    · intro hall
+      have hp := hall '\\' hbs
+      have : plainKeyChar '\\' = false := by decide
+      rw [this] at hp; cases hp
+  · exact Conf.key_preserved_iff k v hw (fun c hc e => hbs (e ▸ hc)) hv
 
 theorem key_cut_at_separator (a rest : Str) (e : Char) (l : KV) (ha : WFkey a) (he : isEndOfKey e = true)
     (h : lexPairs (a ++ e :: rest) = some l) : ∃ v tl, l = (a, v) :: tl :=
